@@ -125,6 +125,34 @@ Fixpoint spec_run (clk : positive) (imp : option (Z * kstat)) (hist : list keven
   | e :: r => spec_result clk imp hist e :: spec_run clk imp (e :: hist) r
   end.
 
+(* ---- re-entrancy: a blocking call with the calls the same thread makes during its sleep *)
+Record kbevent := { kb_ev : kevent; kb_nested : list kevent; kb_raise : bool }.
+Definition to_bevent (b : kbevent) : bevent :=
+  {| be_ev := to_event (kb_ev b); be_nested := map to_event (kb_nested b); be_raise := kb_raise b |}.
+Definition kb_blocking (b : kbevent) : bool :=
+  match ke_fn (kb_ev b), ke_iv (kb_ev b) with
+  | FPercent, IPos | FTimesPercent, IPos => true
+  | _, _ => false
+  end.
+(* what is demanded: the nested calls are ordinary calls of the thread, measured against what the
+   thread has stored; the blocking call reports between ITS OWN two samples (spec_result of a
+   blocking call does not look at the history) and its last sample is stored after theirs; a sleep
+   left by an exception: the blocking call fails and stores nothing *)
+Fixpoint spec_brun (clk : positive) (imp : option (Z * kstat)) (hist : list kevent) (l : list kbevent) : list (outcome sres) :=
+  match l with
+  | [] => []
+  | b :: r =>
+    if kb_blocking b then
+      if kb_raise b then
+        spec_run clk imp hist (kb_nested b) ++ Exc RuntimeError :: spec_brun clk imp (rev (kb_nested b) ++ hist) r
+      else
+        spec_run clk imp hist (kb_nested b ++ [kb_ev b]) ++ spec_brun clk imp (kb_ev b :: rev (kb_nested b) ++ hist) r
+    else spec_result clk imp hist (kb_ev b) :: spec_brun clk imp (kb_ev b :: hist) r
+  end.
+(* the calls in the order their samples are stored *)
+Definition flatb (b : kbevent) : list kevent :=
+  if kb_blocking b then kb_nested b ++ [kb_ev b] else [kb_ev b].
+
 (* ---- hypotheses of the script theorem, all decidable *)
 Definition cpu_ids (r : kstat) : list bytes := map fst (ks_cpus r).
 Fixpoint list_beqb (a b : list bytes) : bool :=
@@ -215,4 +243,19 @@ Fixpoint spec_proc_run (clk : positive) (hist : list (Z * pevent)) (evs : list (
   match evs with
   | [] => []
   | e :: r => spec_proc_result clk hist e :: spec_proc_run clk (e :: hist) r
+  end.
+
+(* hypotheses of the script theorem with nested calls, following the order in which samples are stored *)
+Fixpoint bscript_ok (clk : positive) (nf : nat) (ids : list bytes) (imp : option (Z * kstat))
+         (hist : list kevent) (l : list kbevent) : bool :=
+  match l with
+  | [] => true
+  | b :: r =>
+    if kb_blocking b then
+      if kb_raise b then
+        script_ok clk nf ids imp hist (kb_nested b) && event_wf nf ids (kb_ev b)
+        && bscript_ok clk nf ids imp (rev (kb_nested b) ++ hist) r
+      else script_ok clk nf ids imp hist (kb_nested b ++ [kb_ev b])
+           && bscript_ok clk nf ids imp (kb_ev b :: rev (kb_nested b) ++ hist) r
+    else script_ok clk nf ids imp hist [kb_ev b] && bscript_ok clk nf ids imp (kb_ev b :: hist) r
   end.
